@@ -420,6 +420,11 @@ def request_line(u: U):
         u.check("C01.reqline.method_token", z3.InRe(method0.t, rfc.TOKEN), "the method is an RFC 9110 token")
         u.check("C01.reqline.version", z3.InRe(version.t, rfc.VERSION), "the version is HTTP/DIGIT.DIGIT")
         u.check("C01.reqline.target_no_space", z3.InRe(path.t, nosp), "the target contains no SP")
+        noctl = z3.Star(RL.ranges_to_re(RL._complement([(0, 32), (127, 127)], RL.MAXCHAR)))
+        u.check("C01.reqline.target_no_ctl", z3.InRe(path.t, noctl),
+                "the request-target of an accepted request holds no control byte (NUL, HTAB, bare CR or LF, DEL ...): "
+                "RFC 9112 3.2 allows visible characters only",
+                known=[("F1b", True)], witness={"request": "GET /a\\nb HTTP/1.1"})
         u.check("C01.reqline.exact", And(split_calls[:2] == [("decode", "utf-8", "surrogateescape"), (" ", 2)],
                                          method0 is line_obj.parts[0], path is line_obj.parts[1], version is line_obj.parts[2]),
                 "method, target and version are exactly the three parts of line.split(' ', 2)")
